@@ -107,7 +107,9 @@ type corsWorld struct {
 	c      *restful.Container
 	log    *[]string
 	ws     *restful.WebService
+	api    *restful.WebService
 	hasPut bool
+	hasAPI bool
 	hnd    func(id string) restful.RouteFunction
 }
 
@@ -122,6 +124,16 @@ func (w *corsWorld) mutate(op string) {
 			w.ws.Route(w.ws.PUT("/u1").To(w.hnd("PUT u1")))
 			w.hasPut = true
 		}
+	case "remove-api":
+		if w.hasAPI {
+			w.c.Remove(w.api)
+			w.hasAPI = false
+		}
+	case "add-api":
+		if !w.hasAPI {
+			w.c.Add(w.api)
+			w.hasAPI = true
+		}
 	}
 }
 
@@ -132,7 +144,7 @@ func corsBuild(cfg corsCfg, withFilter bool) corsWorld {
 		c.Router(restful.RouterJSR311{})
 	}
 	var log []string
-	w := corsWorld{c: c, log: &log, hasPut: true}
+	w := corsWorld{c: c, log: &log, hasPut: true, hasAPI: true}
 	cors := restful.CrossOriginResourceSharing{AllowedDomains: cfg.Domains, AllowedDomainFunc: cfg.predicate(), CookiesAllowed: cfg.Cookies,
 		ExposeHeaders: cfg.Expose, MaxAge: cfg.MaxAge, AllowedMethods: cfg.Methods, AllowedHeaders: cfg.Headers, Container: c}
 	after := func(name string) restful.FilterFunction {
@@ -170,6 +182,7 @@ func corsBuild(cfg corsCfg, withFilter bool) corsWorld {
 	api.Route(api.DELETE("/basket").To(hnd("DELETE api/basket")))
 	api.Route(api.GET("/reports").To(hnd("GET api/reports")))
 	c.Add(api)
+	w.api = api
 	ws.Route(ws.DELETE("/reports").To(hnd("DELETE reports")))
 	ws.Route(ws.GET("/u1").To(hnd("GET u1")))
 	ws.Route(ws.PUT("/u1").To(hnd("PUT u1")))
@@ -179,6 +192,10 @@ func corsBuild(cfg corsCfg, withFilter bool) corsWorld {
 	ws.Route(ws.GET("/d/{id:(x)|[0-9]+}").To(hnd("GET d")))
 	ws.Route(ws.POST("/d/{id:(x)|[0-9]+}/c").To(hnd("POST d/c")))
 	ws.Route(ws.PUT("/caf\u00e9").To(hnd("PUT cafe"))) // reaches the server percent-encoded
+	// two routes declared with one RouteBuilder: the second by setting method, path and function anew
+	rb := ws.GET("/rb1").To(hnd("GET rb1"))
+	ws.Route(rb)
+	ws.Route(rb.Method("PUT").Path("/rb2").To(hnd("PUT rb2")))
 	c.Add(ws)
 	return w
 }
@@ -288,7 +305,9 @@ func replayC08(detail json.RawMessage) error {
 
 func corsCfgs(tier string) []corsCfg {
 	var out []corsCfg
-	for _, d := range [][]string{nil, {corsE1}, {corsE1, corsE2}, {".*"}, {corsE1, ".*"}, {corsE4, corsE1}} {
+	// (blank and space-padded entries - what splitting a comma-separated setting leaves behind - are
+	// entries like any other: a non-empty list is a restriction, and nothing equals a padded entry)
+	for _, d := range [][]string{nil, {corsE1}, {corsE1, corsE2}, {".*"}, {corsE1, ".*"}, {corsE4, corsE1}, {""}, {" ", ""}, {" " + corsE1 + " "}} {
 		for _, p := range []string{"", "e3", "none"} {
 			for _, ck := range []bool{false, true} {
 				for _, ex := range [][]string{nil, {"X-A"}} {
